@@ -24,6 +24,7 @@ spelling, the analysed module is first rewritten, in memory, by transformations 
   N8  formatting idiom         `'({:d},{:d})f'.format(a, b)` / an f-string whose template the pinned function formats with % is shown as
                                `'(%d,%d)f' % (a, b)` (view only: the rules read templates in one spelling; the texts produced are the same for
                                the value kinds the templates are used with)
+  N9  attribute spelling       `setattr(X, 'name', V)` / `X.name = V`: the spelling the pinned function uses for that attribute
   N3  renamed locals           locals of a function are renamed toward the names the pinned function uses for them.  The pairing is
                                found by aligning the statements of both versions (difflib over statement shapes with locals
                                abstracted) and voting; it is *applied* only if it is injective and the new name occurs nowhere in the
@@ -1536,7 +1537,16 @@ def unroll_literal_loops(fn, pinfn):
     Not done when the body rebinds a loop variable, leaves the loop (break / continue / return), or the variables are read later."""
     if pinfn is None or uses_textual_names(fn):
         return 0
-    pin_iters = set(ast.unparse(n.iter) for n in ast.walk(pinfn) if isinstance(n, ast.For))
+    def canon_seq(e):
+        """text of an iterable with tuple and list displays spelled alike"""
+        c = copy.deepcopy(e)
+
+        class L(ast.NodeTransformer):
+            def visit_Tuple(self, n):
+                self.generic_visit(n)
+                return ast.List(elts=n.elts, ctx=ast.Load())
+        return ast.unparse(ast.fix_missing_locations(L().visit(ast.Expression(body=c))).body)
+    pin_iters = set(canon_seq(n.iter) for n in ast.walk(pinfn) if isinstance(n, ast.For))
     pin_ids = all_ids(pinfn)
     done = 0
     # locals bound exactly once to a literal table
@@ -1566,7 +1576,7 @@ def unroll_literal_loops(fn, pinfn):
                     it = tables[it.id].value
                 tg = st.target
                 names = [tg.id] if isinstance(tg, ast.Name) else ([e.id for e in tg.elts] if isinstance(tg, (ast.Tuple, ast.List)) and all(isinstance(e, ast.Name) for e in tg.elts) else None)
-                ok = isinstance(it, (ast.Tuple, ast.List)) and 2 <= len(it.elts) <= 16 and names is not None and ast.unparse(st.iter) not in pin_iters \
+                ok = isinstance(it, (ast.Tuple, ast.List)) and 2 <= len(it.elts) <= 16 and names is not None and canon_seq(it) not in pin_iters \
                     and not _contains(st.body, (ast.Break, ast.Continue, ast.Return, ast.Yield, ast.YieldFrom))
                 rows = []
                 if ok:
@@ -1728,6 +1738,43 @@ def formatting_idiom(fn, pinfn):
     return done
 
 
+# ------------------------------------------------------------------------------------------- N9: setattr / attribute assignment
+def attribute_spelling(fn, pinfn):
+    """`setattr(X, 'name', V)` and `X.name = V` are the same operation (for a plain identifier that is not a private `__name`); the
+    spelling the pinned function uses for that attribute is restored"""
+    if pinfn is None:
+        return 0
+    pin_set = set()
+    pin_attr = set()
+    for n in ast.walk(pinfn):
+        if isinstance(n, ast.Call) and isinstance(n.func, ast.Name) and n.func.id == 'setattr' and len(n.args) == 3 and isinstance(n.args[1], ast.Constant):
+            pin_set.add(n.args[1].value)
+        if isinstance(n, ast.Attribute) and isinstance(n.ctx, ast.Store):
+            pin_attr.add(n.attr)
+    done = 0
+    for blk_owner in ast.walk(fn):
+        for fld in ('body', 'orelse', 'finalbody'):
+            b = getattr(blk_owner, fld, None)
+            if not (isinstance(b, list) and b and isinstance(b[0], ast.stmt)):
+                continue
+            for i, st in enumerate(b):
+                if isinstance(st, ast.Expr) and isinstance(st.value, ast.Call) and isinstance(st.value.func, ast.Name) and st.value.func.id == 'setattr' \
+                        and len(st.value.args) == 3 and not st.value.keywords and isinstance(st.value.args[1], ast.Constant) and isinstance(st.value.args[1].value, str):
+                    name = st.value.args[1].value
+                    if name.isidentifier() and not name.startswith('__') and name in pin_attr and name not in pin_set:
+                        b[i] = ast.copy_location(ast.Assign(targets=[ast.copy_location(ast.Attribute(value=st.value.args[0], attr=name, ctx=ast.Store()), st)],
+                                                            value=st.value.args[2], lineno=st.lineno), st)
+                        done += 1
+                elif isinstance(st, ast.Assign) and len(st.targets) == 1 and isinstance(st.targets[0], ast.Attribute) and st.targets[0].attr in pin_set \
+                        and st.targets[0].attr not in pin_attr and not st.targets[0].attr.startswith('__'):
+                    t = st.targets[0]
+                    b[i] = ast.copy_location(ast.Expr(value=ast.copy_location(ast.Call(func=ast.Name(id='setattr', ctx=ast.Load()), args=[t.value, ast.Constant(value=t.attr), st.value], keywords=[]), st)), st)
+                    done += 1
+    if done:
+        ast.fix_missing_locations(fn)
+    return done
+
+
 # ----------------------------------------------------------------------------------------------------------------------- driver
 def normalize(relpath, text, tree):
     """rewrite `tree` (parsed from `text`) in place; -> statistics dict (empty when nothing was done)"""
@@ -1750,7 +1797,7 @@ def normalize(relpath, text, tree):
         stats['not_inlined'] = sorted(set('%s (%s)' % f for f in inl.failed))
     pfun = index_functions(pin)
     cfun = index_functions(tree)
-    nl = nr = nt = nc = nb = nu = nf = 0
+    nl = nr = nt = nc = nb = nu = nf = na = 0
     for q, (fn, body, cls) in cfun.items():
         p = pfun.get(q)
         if p is None:
@@ -1762,6 +1809,7 @@ def normalize(relpath, text, tree):
         nl += inline_local_lambdas(fn, p[0])
         nf += formatting_idiom(fn, p[0])
         nu += unroll_literal_loops(fn, p[0])
+        na += attribute_spelling(fn, p[0])
         nb += branch_shapes(fn, p[0])
         nc += loops_to_comprehensions(fn, p[0])
         nt += propagate_new_temporaries(fn, p[0])
@@ -1772,6 +1820,8 @@ def normalize(relpath, text, tree):
         stats['formats'] = nf
     if nu:
         stats['unrolled'] = nu
+    if na:
+        stats['attributes'] = na
     if nb:
         stats['branches'] = nb
     if nc:
